@@ -149,6 +149,47 @@ fn par_for<F: Fn(usize, &mut Stats, &mut Vec<(String, String)>) + Sync>(n: usize
 }
 
 // ---------------------------------------------------------------------------------------------
+/// chunks of several MiB (far beyond the codecs' windows and block sizes) through every codec at its lowest and a high
+/// level: compress -> clone must reproduce the source (no model line: the round trip itself is the oracle)
+fn huge_chunk_cases(seed: u64, thorough: bool, st: &mut Stats) {
+    let mut cases: Vec<(&str, u32)> = vec![("lzma", 1), ("zstd", 1), ("brotli", 1)];
+    if thorough { cases.extend([("lzma", 9), ("lzma", 3), ("zstd", 19), ("brotli", 9), ("none", 0)]); } else { cases.push(("lzma", 6)); }
+    let cases = &cases;
+    let results: Vec<Option<String>> = std::thread::scope(|sc| {
+        let hs: Vec<_> = (0..cases.len()).map(|i| sc.spawn(move || {
+            let (codec, level) = cases[i];
+            let mut rng = Rng::new(seed ^ 0x9a ^ ((i as u64) << 12));
+            // low-alphabet data (compressible, but not trivially): 9 MiB in chunks of 4 MiB
+            let src: Vec<u8> = (0..9 * 1024 * 1024 + 12345).map(|_| b"0123456789abcdef"[rng.below(16) as usize]).collect();
+            let s = Scn::new("hc", i as u64);
+            s.write("src.bin", &src);
+            let lv = format!("{}", level);
+            let mut a: Vec<&str> = vec!["compress", "-i", "src.bin", "--fixed-size", "4MiB", "--compression", codec];
+            if codec != "none" { a.extend(["--compression-level", lv.as_str()]); }
+            a.push("big.cba");
+            let (c1, l1) = s.bita(&a, None, &[]);
+            if c1 != 0 { return Some(format!("huge chunks, {} level {}: compress failed: {}", codec, level, l1.lines().last().unwrap_or(""))); }
+            let (c2, l2) = s.bita(&["clone", "big.cba", "out.bin"], None, &[]);
+            if c2 != 0 || s.read("out.bin").as_deref() != Some(&src[..]) { return Some(format!("huge chunks, {} level {}: clone of the fresh archive does not reproduce the source (exit {}): {}", codec, level, c2, l2.lines().last().unwrap_or(""))); }
+            None
+        })).collect();
+        hs.into_iter().map(|h| h.join().unwrap()).collect()
+    });
+    for (i, r) in results.into_iter().enumerate() {
+        st.evaluations += 1;
+        st.oracle_checks += 1;
+        st.count(&format!("clihuge/{}-{}", cases[i].0, cases[i].1));
+        if let Some(what) = r { st.violation("C01", &what, &format!("clirt-huge {} {}", cases[i].0, cases[i].1)); }
+    }
+}
+
+/// Suite `clihuge` (C01)
+pub fn suite_clihuge(dir: &str, seed: u64, thorough: bool, st: &mut Stats) {
+    let out = SuiteOut::new(dir, "clihuge");
+    huge_chunk_cases(seed, thorough, st);
+    out.finish();
+}
+
 pub fn suite_clirt(dir: &str, seed: u64, thorough: bool, st: &mut Stats) {
     let mut out = SuiteOut::new(dir, "clirt");
     let n = if thorough { 400 } else { 48 };
@@ -358,7 +399,11 @@ pub fn suite_cliclone(dir: &str, seed: u64, thorough: bool, st: &mut Stats) {
         let mut cargs: Vec<String> = vec!["clone".into()];
         if nfail > 0 { cargs.extend(["--http-retry-count".to_string(), format!("{}", nfail + rng.below(2) as usize), "--http-retry-delay".to_string(), "0".to_string()]); }
         if rng.chance(1, 2) { cargs.extend(["--buffered-chunks".to_string(), format!("{}", rng.pick(&[1, 2, 7, 32]))]); }
-        if kind != "new" { s.write("out.bin", &prior); cargs.push("--seed-output".into()); }
+        if kind != "new" {
+            s.write("out.bin", &prior);
+            // (-f does not truncate a clone output: with or without it the old content is there to be reused)
+            match rng.below(4) { 0 => cargs.extend(["--force-create".to_string(), "--seed-output".to_string()]), 1 => cargs.extend(["--seed-output".to_string(), "-f".to_string()]), _ => cargs.push("--seed-output".into()) }
+        }
         for (k, sd) in seeds.iter().enumerate() { s.write(&format!("seed{}.bin", k), sd); cargs.push("--seed".into()); cargs.push(format!("seed{}.bin", k)); }
         if stdin_seed.is_some() { cargs.push("--seed".into()); cargs.push("-".into()); }
         // --verify-output hashes the whole device: only meaningful when the device has the source's size
